@@ -68,3 +68,5 @@ func VH_c20_script_Range()           { script(find("Range")) }
 func VH_c20_script_RangeClosed()     { script(find("RangeClosed")) }
 func VH_c20_script_GenerateTake()    { script(find("GenerateTake")) }
 func VH_c20_script_SeqMethods()      { script(find("SeqMethods")) }
+
+func VH_c20_script_Concat_MethodMap_Concat() { script(find("Concat_MethodMap_Concat")) }
